@@ -19,7 +19,11 @@ pub fn check_dec(drv: &mut Driver, ev: &mut Ev, case: &DecCase, enumerated: bool
     if tr { println!("TRACE {} | replacing calls: {} | manual calls: {} | manual items: [{}]", case.describe(), fmt_calls(&a.calls), fmt_calls(&b.calls), fmt_items(&b.items)); }
     ev.count("replacement-diff.decode-histories");
     let key = |k: &str| format!("decode:{}:{:?}:{}", crate::c01::family(case.enc), case.sink, k);
-    if a.fail_of(&[FailKind::Panic, FailKind::Stuck]).is_some() || b.fail_of(&[FailKind::Panic, FailKind::Stuck]).is_some() { ev.count("replacement-diff.aborted(panic/stuck: C06/C08)"); return; }
+    match (a.fail_of(&[FailKind::Panic, FailKind::Stuck]), b.fail_of(&[FailKind::Panic, FailKind::Stuck])) {
+        (None, None) => {}
+        (Some(f), None) => { ev.violation("replacement-diff", &key(&format!("replacing-run-{:?}", f.0)), format!("the replacing method did not complete ({:?}: {}) although the documented manual procedure on the same history does, giving [{}] | {} | calls: {}", f.0, f.1, fmt_items(&b.items), case.describe(), fmt_calls(&a.calls))); return; }
+        _ => { ev.count("replacement-diff.aborted(manual run panicked/stuck: C06/C08)"); return; }
+    }
     let nerr = b.items.iter().filter(|i| matches!(i, Item::E(..))).count();
     if nerr > 0 { if enumerated { ev.nontrivial_enum(); } else { ev.nontrivial_hash(case.hash()); } }
     let exp = items_replaced(&b.items);
@@ -48,7 +52,11 @@ pub fn check_enc(drv: &mut Driver, ev: &mut Ev, case: &EncCase, enumerated: bool
     if tr { println!("TRACE {} | replacing calls: {} bytes={} | manual calls: {} items=[{}]", case.describe(), fmt_calls(&a.calls), hex(&a.bytes), fmt_calls(&b.calls), fmt_eitems(&b.items)); }
     ev.count("replacement-diff.encode-histories");
     let key = |k: &str| format!("encode:{}:{}:{}", crate::c01::ofam(case.enc), if case.src16 { "utf16" } else { "utf8" }, k);
-    if a.fail_of(&[FailKind::Panic, FailKind::Stuck]).is_some() || b.fail_of(&[FailKind::Panic, FailKind::Stuck]).is_some() { ev.count("replacement-diff.aborted(panic/stuck: C06/C08)"); return; }
+    match (a.fail_of(&[FailKind::Panic, FailKind::Stuck]), b.fail_of(&[FailKind::Panic, FailKind::Stuck])) {
+        (None, None) => {}
+        (Some(f), None) => { ev.violation("replacement-diff", &key(&format!("replacing-run-{:?}", f.0)), format!("the replacing method did not complete ({:?}: {}) although the documented manual procedure on the same history does | {} | calls: {}", f.0, f.1, case.describe(), fmt_calls(&a.calls))); return; }
+        _ => { ev.count("replacement-diff.aborted(manual run panicked/stuck: C06/C08)"); return; }
+    }
     // expected bytes and NCR start offsets
     let mut exp: Vec<u8> = vec![]; let mut ncr_starts: Vec<usize> = vec![];
     for it in b.items.iter() { match it { EItem::B(x) => exp.extend_from_slice(x), EItem::U(c) => { ncr_starts.push(exp.len()); exp.extend_from_slice(format!("&#{};", c).as_bytes()); } } }
